@@ -48,6 +48,8 @@ def holders(shape, kinds):
             out.append((k, mk_dense(shape)))
         elif k == "sparse":
             out.append((k, mk_sparse(shape)))
+            # a receiver without stored entries: shortcuts for "nothing to do" must not skip the validation
+            out.append((k, bind.ttb.sptensor(shape=tuple(shape))))
         elif k == "ktensor":
             out.append((k, mk_kt(shape)))
         elif k == "ttensor":
